@@ -191,6 +191,30 @@ class Index:
         first = min((q['seq'], b) for (e, b), q in self.accepted.items() if e == ev)
         return bus != first[1]
 
+    def f4_begin_seq(self, ev: int, bus, depth=0) -> float:
+        """Trace position at which the forwarded-bus processing that an F4 attribution rests on BEGAN (inf: never began)."""
+        if bus is not None and self.via_forward(ev, bus):
+            lst = self.procs_by.get((ev, bus), [])
+            return lst[0]['b']['seq'] if lst else float('inf')
+        inv = self.disp_by.get(ev)
+        while isinstance(inv, int) and inv in self.inv and depth < 50:
+            r = self.inv[inv]
+            if self.via_forward(r['ev'], r['bus']):
+                p = self.procs.get(r.get('pid'))
+                return p['b']['seq'] if p is not None else r['seq']
+            inv = self.disp_by.get(r['ev'])
+            depth += 1
+        return float('inf')
+
+    def f4_explains(self, ev: int, bus, root: int, at_seq: int) -> bool:
+        """F4 on the current tree: the awaited event was found complete while the forwarded event's later bus had not yet BEGUN its
+        processing (results exist only from then on). Once that processing has begun the event reads 'started' and the completion
+        check of everything above it fails - an event released after that moment is not explained by F4."""
+        sig = [r for r in self.R if r['k'] == 'sig_set' and r['ev'] == root and r['seq'] < at_seq]
+        if not sig:
+            return True
+        return self.f4_begin_seq(ev, bus) > sig[-1]['seq']
+
     def tainted_inv(self, inv, depth=0) -> bool:
         """Invocation runs on a bus its event reached by forwarding, or lies causally below such a one."""
         if not isinstance(inv, int) or inv not in self.inv or depth > 50:
@@ -295,7 +319,8 @@ class Index:
                 elif self.held_by_other(ev, at_seq, me):
                     leaf_mech = 'F1'
                 elif self.tainted_inv(self.disp_by.get(ev)) or any(self.via_forward(ev, b) for (e, b) in self.accepted if e == ev):
-                    leaf_mech = 'F4'
+                    fb = next((b for (e, b) in self.accepted if e == ev and self.via_forward(ev, b)), None)
+                    leaf_mech = 'F4' if self.f4_explains(ev, fb, root, at_seq) else None
                 mechs.add(leaf_mech)
             else:
                 _k, _ev, label, _st = it
@@ -304,7 +329,7 @@ class Index:
                 if isinstance(me, str) and me[:1] in ('S', 'G'):
                     leaf_mech = 'F14'
                 elif bus is not None and (self.via_forward(ev, bus) or self.tainted_inv(self.disp_by.get(ev))):
-                    leaf_mech = 'F4'
+                    leaf_mech = 'F4' if self.f4_explains(ev, bus, root, at_seq) else None
                 elif self.held_by_other(ev, at_seq, me):
                     leaf_mech = 'F1'
                 mechs.add(leaf_mech)
@@ -1049,7 +1074,8 @@ def c15(ix: Index) -> None:
             ix.C['c15_accepted_before_call'] += 1
             done = sum(1 for p in ix.procs_by.get((ev, c['bus']), []) if p['e'] is not None and p['e']['seq'] < r['seq'])
             if done < n:
-                ix.v('C15', 'returned-before-accepted-event-finished', _hang_mech(ix, {ev}), bus=c['bus'], ev=ev, enq=n, done=done)
+                mech15 = _hang_mech(ix, {ev})
+                ix.v('C15', 'returned-before-accepted-event-finished', mech15 if mech15 == 'F5' else None, bus=c['bus'], ev=ev, enq=n, done=done)  # (F14 does not explain an early return)
         # liveness at quiescence: the probe made by the harness must return within one poll period
         if c['by'] == 'M' and r['vt'] - c['vt'] > 0.25:
             ix.v('C15', 'slow-at-quiescence', None, bus=c['bus'], took=r['vt'] - c['vt'])
@@ -1207,12 +1233,22 @@ def c10(ix: Index) -> None:
         q = ix.procs.get(ix.inv[v]['pid'])
         return q['b']['vt'] if q is not None and has_busy else ix.inv[v]['vt']
 
+    h_calls = [r for r in ix.R if r['k'] == 'h_call']
     for inv, i in ix.inv.items():
         to = ix.mk.get(i['ev'], {}).get('timeout')
         if to is None:
             continue
         x = ix.exit.get(inv)
         deadline = i['vt'] + to
+        if ix.sc['handlers'][i['h']].get('retry'):
+            # a handler decorated with @retry(semaphore_limit=..): the library started it (and its clock) at 'h_call'; the body was
+            # entered when a slot became free
+            hc_ = [r for r in h_calls if r['h'] == i['h'] and r['ev'] == i['ev'] and r['seq'] < inv]
+            if hc_:
+                deadline = hc_[-1]['vt'] + to
+                if i['vt'] > deadline + 1e-3:
+                    ix.v('C10', 'handler-runs-past-timeout', None, ev=i['ev'], h=i['h'], deadline=deadline, body_entered_at=i['vt'])
+                    continue
         # the library arms the timer when it starts the handler, the body is entered at the same virtual instant - unless blocking
         # user code (sync 'busy') holds the loop in between: then the timer was armed somewhere between the start of this bus's
         # processing of the event and the body's first step
@@ -1296,6 +1332,18 @@ def c10(ix: Index) -> None:
                 done = any(p['e'] is not None for p in ix.procs_by.get((ev, bus), []))
                 if ix.sane and done and (res is None or res['status'] != 'error' or res['err'] not in ('TimeoutError', 'CancelledError')):
                     ix.v('C10', 'result-not-timeout-error', None, ev=ev, h=hi, result=res, timeout=ix.mk[ev]['timeout'])
+    # likewise a @retry-decorated handler whose clock ran out while it was still waiting for its semaphore slot: no body, the event
+    # is touched by that timeout all the same
+    for r in h_calls:
+        if ix.mk.get(r['ev'], {}).get('timeout') is None or any(q['h'] == r['h'] and q['ev'] == r['ev'] and q['seq'] > r['seq'] for q in ix.inv.values()):
+            continue
+        if r['bus'] in _stopped_buses(ix):
+            continue
+        zero_evs.add(r['ev'])
+        res = next((q for q in fin.get(r['ev'], {}).get('results', []) if q['hid'] == f"B{r['bus']}.h{r['h']}"), None)
+        done = any(p['e'] is not None for p in ix.procs_by.get((r['ev'], r['bus']), []))
+        if ix.sane and done and (res is None or res['status'] != 'error' or res['err'] not in ('TimeoutError', 'CancelledError')):
+            ix.v('C10', 'result-not-timeout-error', None, ev=r['ev'], h=r['h'], result=res, waited_for_slot=True)
     if not fired and not zero_evs:
         return
     # (c) remaining handlers of the event still run; the event and every touched event completes
@@ -1317,6 +1365,9 @@ def c10(ix: Index) -> None:
                         seen_a.add(cur)
                         cur = ix.parent_of[cur]
                         anc.append(cur)
+                    if ix.sc['handlers'][hi].get('retry') and res_h is not None and res_h['err'] in ('TimeoutError', 'CancelledError') and any(r['h'] == hi and r['ev'] == i['ev'] for r in h_calls):
+                        ix.C['c10_retry_handlers_timed_out_waiting_for_their_slot'] += 1
+                        continue  # started by the library, timed out while still waiting for its semaphore slot: the body never ran
                     if ix.nonpos_timeout(i['ev']) and not ix.sc['handlers'][hi].get('kind', 'async').startswith('s') and res_h is not None and res_h['err'] == 'TimeoutError':
                         continue  # zero / negative timeout: an async sibling is cut before its first step (judged above)
                     if res_h is not None and res_h['err'] == 'RuntimeError' and _self_recursion_depth(ix, i['ev'], hi) >= 3:
